@@ -11,6 +11,30 @@ CHECKS = {
          "Every balanced-tree shape (all chunk counts 0..w^3+w+1 for small widths, width 174 at its boundaries), every writer (this builder, reference importer in 8 modes), every opener and every streamed buffer size is run against the real code and compared with the original bytes; exhaustive within the stated scope, not sampled.",
          "Small-scope argument: DAG shape depends only on chunk count relative to w^k. Byte values restricted to two patterns. Trusted: boxo importer as reference writer, gogo unixfs_pb for the declared size.",
          "DESIGN.md §5 C01"),
+ "C02": ("bounded-exhaustive subset enumeration vs map model + exhaustive hashBits agreement sweep",
+         "Every subset of a hash-colliding/awkward-name universe at every fanout 8..1024 (plus deep-collision universe, threshold-straddling and large generated sets) is built with the real builders, reified and compared with the Go map of its entries through all lookup entry points, both iterators and Length; both hashBits helpers are compared with plain arithmetic for every (width, level).",
+         "Names limited to the universes; murmur3 implementation (spaolacci) shared with the code under test. hashBits sweep needs the verif-tagged export hooks.",
+         "DESIGN.md §5 C02"),
+ "C05": ("bounded-exhaustive range/lookup/path enumeration with request log vs independent block-span model",
+         "Every range [a,b) of every small file shape (both writers), every member/non-member lookup on every sharded directory of the universe subsets (cold and warm), every path (and perturbation) of every small tree: the set of links requested from storage must be a subset of what an independent walk of the stored blocks says the request needs.",
+         "File DAGs are those either writer produces (BlockSizes present). Model parses dag-pb/UnixFS itself (protowire + gogo).",
+         "DESIGN.md §5 C05"),
+ "C07": ("bounded-exhaustive shape enumeration, differential vs reference balanced importer",
+         "For every chunk count of small widths (every balanced shape incl. trailing single-child subtrees and chains), width 174 at its boundaries and content-defined chunkers, (link,size) of BuildUnixFSFile is compared with boxo balanced.Layout(raw leaves, CIDv1).",
+         "Reference = boxo v0.24.0 (already a dependency). Contents limited to two patterns.",
+         "DESIGN.md §5 C07"),
+ "C08": ("explicit-state BFS over the reference HAMT (state key = root CID) + differential build",
+         "BFS over Set/Remove histories of boxo's HAMT for every fanout until the frontier is empty; in every reachable state this library must read exactly the reference's entry set and the sharded builder must reproduce the reference root CID and size; plus all subsets of a deep-collision universe built fresh.",
+         "Universe of 8 (quick) / 11 (thorough) names; canonical state key is the content address (exact). Reference = boxo v0.24.0.",
+         "DESIGN.md §5 C08"),
+ "C11": ("bounded-exhaustive enumeration vs recursive tree-sum model",
+         "Every small file shape (incl. equal chunks where de-duplicated storage < tree sum), every universe subset as sharded/plain directory and directories of builder-written files: returned size, every link Tsize, every interior FileSize/BlockSizes are recomputed from the stored blocks by an independent parser.",
+         "Model = own dag-pb parser + gogo unixfs_pb over stored blocks.",
+         "DESIGN.md §5 C11"),
+ "C20": ("bounded-exhaustive enumeration with ordered request log vs independent DFS",
+         "For every small file shape, sharded directory and tree path, the sequence of first requests per distinct link (full read, preload reifier/selector, entity selector, MapIterator, Length, path walk) must equal the depth-first link-order walk computed from the stored blocks; each run twice.",
+         "In-process repetition for determinism (map-order choice exploration is part of C10's instrumented build).",
+         "DESIGN.md §5 C20"),
 }
 
 NOT_YET = "check not built yet in this round (work in progress, see DESIGN.md §11)"
